@@ -612,6 +612,32 @@ func intentVotingEnds(h *Hist) bool {
 	return false
 }
 
+// ActTimedPillarRevoke: the owner of an active pillar revokes it inside (or just before / after) its revoke window; the
+// momentums up to the window are produced first.
+func (h *Hist) ActTimedPillarRevoke() {
+	c := h.C
+	list, err := definition.GetPillarsList(h.A.Chain.GetFrontierAccountStore(types.PillarContract).Storage(), true, definition.AnyPillarType)
+	if err != nil || len(list) == 0 {
+		return
+	}
+	p := list[c.Pick("tr.idx", len(list))]
+	if h.W.Keys.ByAddr[p.StakeAddress] == nil {
+		return
+	}
+	cycle := constants.PillarEpochLockTime + constants.PillarEpochRevokeTime
+	el := (h.A.Frontier().Timestamp.Unix() - p.RegistrationTime) % cycle
+	if el < constants.PillarEpochLockTime {
+		// slots of 10 s up to the window, plus a drawn offset that can overshoot it
+		skip := int((constants.PillarEpochLockTime-el)/10) + c.Int("tr.offset", -2, 3)
+		if skip < 0 {
+			skip = 0
+		}
+		h.Produce(skip)
+	}
+	h.ActCall(p.StakeAddress, types.PillarContract, types.ZnnTokenStandard, big.NewInt(0),
+		definition.ABIPillars.PackMethodPanic(definition.RevokeMethodName, p.Name), "timed pillar.Revoke("+p.Name+")")
+}
+
 // projectOwner returns the creator of the project whose id is the hash of its creating send.
 func (h *Hist) projectOwner(id types.Hash) (types.Address, bool) {
 	for _, s := range h.Sends {
